@@ -98,6 +98,11 @@ def global_state_rule(repo, res, rule="GLOBALSTATE"):
 
 
 def run(repo, res, tier):
+    from vlib import rules_hasheq as HQ
+
+    # lookups in a per-process seeded hash container (indexmap's default RandomState: DFAInternPool, RegexInternPool, the subset
+    # construction's state map) are deterministic only if the key's Hash and == agree
+    HQ.hasheq_rule(repo, res)
     global_state_rule(repo, res)
     mir = M.get_mir(tier)
     reach = mir.reachable(["main::main"])
